@@ -230,12 +230,26 @@ Definition poll_ready (o : list wanswer) (s : send_stream) : poll (sres unit) * 
       end
   end.
 
-(* fn poll_finish: quinn's finish() fails with ClosedStream once finished or reset *)
-Definition poll_finish (s : send_stream) : poll (sres unit) * send_stream :=
+(* quinn's finish() fails with ClosedStream once finished or reset *)
+Definition q_finish (s : send_stream) : poll (sres unit) * send_stream :=
   let q := s_q s in
   if qs_finished q || (match qs_reset q with Some _ => true | None => false end) then (Ready (Err HUnknownFinish), s)
   else (Ready (Ok tt), {| s_q := {| qs_id := qs_id q; qs_log := qs_log q; qs_finished := true; qs_reset := qs_reset q |};
                          s_writing := s_writing s |}).
+
+(* fn poll_finish; `drains` = the `if self.writing.is_some() { ready!(self.poll_ready(cx))?; }` block is present:
+   a buffer accepted by send_data is written out (Pending while Quinn pends, its error returned) before finish() *)
+Definition poll_finish_with (drains : bool) (o : list wanswer) (s : send_stream)
+  : poll (sres unit) * send_stream * list wanswer :=
+  match (if drains then s_writing s else None) with
+  | Some _ =>
+      match poll_ready o s with
+      | (Ready (Ok _), s1, o1) => let '(r, s2) := q_finish s1 in (r, s2, o1)
+      | (other, s1, o1) => (other, s1, o1)
+      end
+  | None => let '(r, s2) := q_finish s in (r, s2, o)
+  end.
+Definition poll_finish := poll_finish_with poll_finish_drains.
 
 (* fn reset: VarInt::from_u64(code).unwrap_or(VarInt::MAX); the first reset is the one Quinn keeps *)
 Definition reset_code (code : N) : res unit N :=
@@ -297,7 +311,7 @@ Definition send_step (op : send_op) (s : send_stream) (o : list wanswer) : send_
   match op with
   | OSendData b => let '(r, s') := send_data b s in (SRUnit r, s', o)
   | OPollReady => let '(r, s', o') := poll_ready o s in (SRPoll r, s', o')
-  | OPollFinish => let '(r, s') := poll_finish s in (SRPoll r, s', o)
+  | OPollFinish => let '(r, s', o') := poll_finish o s in (SRPoll r, s', o')
   | OReset c => let '(r, s') := send_reset c s in (SRNone r, s', o)
   | OSendId => (SRId (send_id s), s, o)
   | OPollSend buf => let '(r, s', _, o') := poll_send o buf s in (SRSend r, s', o')
